@@ -1,6 +1,7 @@
 package rules
 
 import (
+	"go/token"
 	"go/types"
 	"sort"
 
@@ -465,6 +466,45 @@ func c06R6(c *Ctx) {
 		}
 	}
 	c.Dominated(r, "stopGraceful: stop control message injected only once the stop position is known", asInstrs(kit.CallsTo(fn, inject)), g, "the stop-position store (or positionFetched)")
+	// ... and it carries the RECORDED position (the cached field), so a stop that is retried after the first
+	// injection timed out still tells Run where to stop
+	nPos := 0
+	for _, ic := range kit.CallsTo(fn, inject) {
+		args := ic.Common().Args
+		rec := args[len(args)-1]
+		// the record literal: a local composite whose Position field is stored
+		var lit ssa.Value
+		if u, ok := rec.(*ssa.UnOp); ok && u.Op == token.MUL {
+			lit = u.X
+		}
+		if lit == nil {
+			continue
+		}
+		for _, b := range fn.Blocks {
+			for _, in := range b.Instrs {
+				st, ok := in.(*ssa.Store)
+				if !ok {
+					continue
+				}
+				fa, ok := st.Addr.(*ssa.FieldAddr)
+				if !ok || fa.X != lit {
+					continue
+				}
+				if f := kit.FieldOf(fa); f == nil || f.Name() != "Position" {
+					continue
+				}
+				nPos++
+				cached := false
+				if u, ok := st.Val.(*ssa.UnOp); ok {
+					if pf := kit.FieldOf(u.X); pf != nil && pf.Name() == "position" {
+						cached = true
+					}
+				}
+				c.R.Check(cached, r, "stopGraceful: the stop control message carries the recorded stop position", c.Pos(st.Pos()), "n.stop.position", "the stop control message carries something other than the recorded n.stop.position (e.g. a local that is only set on the attempt that called Source.Stop): a retried graceful stop tells Run to stop at an empty position, Run never reaches its stop condition and the stop never completes", true)
+			}
+		}
+	}
+	c.R.Check(nPos >= 1, r, "stopGraceful: builds the stop control message", c.Pos(fn.Pos()), "ok", "no stop control message with a position found", false)
 }
 
 func c06R7(c *Ctx) {
